@@ -64,6 +64,21 @@ impl Spec {
 }
 
 pub fn rand_custom_value(rng: &mut Rng) -> Vec<u8> {
+    if rng.chance(1, 8) {
+        // lists with a long-form header (payload of 56 bytes and more), plain and nested
+        let n = *rng.pick(&[56usize, 57, 72, 100, 120]);
+        let strs: Vec<u8> = {
+            let mut p = Vec::new();
+            while p.len() + 9 <= n {
+                p.extend_from_slice(&rlp_bytes(&rng.bytes(8)));
+            }
+            while p.len() < n {
+                p.push(0x01);
+            }
+            p
+        };
+        return if rng.chance(1, 2) { rlp_list(&strs) } else { rlp_list(&[rlp_list(&strs), rlp_bytes(b"x")].concat()) };
+    }
     match rng.below(10) {
         0 => vec![0x80],
         1 => vec![rng.below(0x80) as u8],
@@ -93,6 +108,10 @@ pub fn rand_custom_key(rng: &mut Rng) -> Vec<u8> {
         {
             return k;
         }
+    }
+    if rng.chance(1, 10) {
+        // long keys (two-byte key headers)
+        return vec![0x7a; *rng.pick(&[57usize, 64, 65, 100, 128, 150])];
     }
     match rng.below(10) {
         8 => vec![0x7a; 55],
@@ -277,6 +296,12 @@ pub fn structural_mutants(spec: &Spec, rng: &mut Rng, out: &mut Vec<Input>) {
         let mut s = spec.clone();
         s.items[i].1 = rlp_bytes(b"");
         push("m-id-empty", "reject", &s);
+        // near misses of the name
+        for v in [&b"V4"[..], b"v4\0", b"v4 ", b"v40", b"\0v4", b"v", b"4v", b"v44", b" v4"] {
+            let mut s = spec.clone();
+            s.items[i].1 = rlp_bytes(v);
+            push("m-id-near-miss", "reject", &s);
+        }
     }
     // public key
     if let Some(i) = find(spec, spec.key.enr_key()) {
@@ -960,6 +985,27 @@ pub fn gen_dec(rng: &mut Rng, thorough: bool, out: &mut String) {
             spec.encode(r % 4 < 2),
             signer_kind,
         ));
+    }
+    // long keys (two-byte key header) and list values with a long-form header, plain and nested
+    for kind in [Kind::Secp, Kind::Ed] {
+        for n in [57usize, 64, 65, 100, 128, 150] {
+            let spec = Spec::new(1, vec![(vec![0x7a; n], vec![0x01u8])], IndKey::gen(rng, kind));
+            inputs.push(inp("v-long-key", "accept", spec.encode(false), kind));
+        }
+        for n in [56usize, 57, 72, 100, 120] {
+            let mut p = Vec::new();
+            while p.len() + 9 <= n {
+                p.extend_from_slice(&rlp_bytes(&rng.bytes(8)));
+            }
+            while p.len() < n {
+                p.push(0x01);
+            }
+            let spec = Spec::new(1, vec![(b"topics".to_vec(), rlp_list(&p))], IndKey::gen(rng, kind));
+            inputs.push(inp("v-long-list", "accept", spec.encode(false), kind));
+            let nested = rlp_list(&[rlp_list(&p), rlp_bytes(b"x")].concat());
+            let spec = Spec::new(1, vec![(b"topics".to_vec(), nested)], IndKey::gen(rng, kind));
+            inputs.push(inp("v-long-list-nested", "accept", spec.encode(false), kind));
+        }
     }
     // keys that are not well-formed UTF-8 (their lossy text images coincide or change order)
     for kind in [Kind::Secp, Kind::Ed] {
